@@ -325,6 +325,21 @@ class Verifier(Engine, StmtMixin, ExprMixin, CallMixin, BuiltinMixin):
                     v = V(ty, z3.K(ty.k.sort(), ty.vopt.none()))
                 else:
                     raise Unsupported('{} for a non-map local')
+            if isinstance(ty, TRef) and isinstance(v.ty, TSeq) and self.field_ty(ty.cls, '__items__') is not None:
+                # a list literal bound to a local declared as a list *object* (it is handed to callees that mutate it)
+                ity = self.field_ty(ty.cls, '__items__')
+                r = fresh(TRef(ty.cls), 'new_' + ty.cls)
+                alloc = st2.ghost.get('$alloc')
+                if alloc is None:
+                    alloc = V(TSet(r.ty), z3.Const('alloc0', z3.ArraySort(RefSort(), z3.BoolSort())))
+                st2.assume(z3.Not(z3.Select(alloc.t, r.t)))
+                st2.assume(r.t != null())
+                st2.assume(self.typeof(r.t) == self.cls_code(ty.cls))
+                st2.ghost['$alloc'] = V(alloc.ty, z3.Store(alloc.t, r.t, z3.BoolVal(True)))
+                self.write_field(st2, r, '__items__', self.coerce(v, ity, st2))
+                st2.env[name] = r
+                outs.append(Outcome('normal', st2))
+                continue
             st2.env[name] = self.coerce(v, ty, st2)
             outs.append(Outcome('normal', st2))
         return outs
